@@ -6,6 +6,9 @@ extern char shim_fault_where[48];
 extern char shim_trace[8192];
 extern long shim_led_types, shim_led_comms, shim_led_infos, shim_led_files, shim_led_reqs;
 extern long shim_ncoll, shim_nindep;
+extern int shim_race_on;
+void shim_race_case_reset(void);
+void shim_race_flush(void);
 void shim_init(void);
 void shim_case_reset(int fault_n, int fault_class);
 #endif
